@@ -16,6 +16,7 @@ def pcHoldS : PC → Nat → Nat
   | .getMaxCas j _ _ _, i => ind (i = j)
   | .getTotal j _, i => ind (i = j)
   | .freeReset j, i => ind (i = j)
+  | .freeYield j, i => ind (i = j)
   | .freeUnlock j, i => ind (i = j)
   | .idle, _ | .getCheck _, _ | .getInc _, _ | .getCas _ _, _ | .apFill _ _, _ | .apPlace _ _, _
   | .crashed _, _ | .freeDec _, _ | .lockSpin _, _ | .lockTry _, _ | .unlockL _, _ | .tlStart _ _, _
@@ -33,7 +34,7 @@ def SlotInv (s : State) : Prop := ∀ i, sumT (holdS i) s.threads = (s.mem.flags
 
 /-- the slot index a program counter refers to -/
 def pcSlot : PC → Option Nat
-  | .getCas j _ | .getCount j _ | .getMax j _ _ | .getMaxCas j _ _ _ | .getTotal j _ | .freeReset j | .freeUnlock j
+  | .getCas j _ | .getCount j _ | .getMax j _ _ | .getMaxCas j _ _ _ | .getTotal j _ | .freeReset j | .freeYield j | .freeUnlock j
   | .apFill j _ | .apPlace j _ => some j
   | _ => none
 
